@@ -17,12 +17,12 @@ RULE = (
 )
 ASSUMPTIONS = [
     "every prefix that names a remote also names a cache (collect pairs them per prefix, as dvc does)",
-    "storage prefixes sit at the root or at top-level directories so that no hashed directory entry spans a deeper prefix with another cache",
+    "storage prefixes sit at the root or at top-level directories; a deeper prefix (inside a directory object) shares its cache with the enclosing prefix and only brings its own remote, so that no directory object spans two caches",
     "collect gathers, for a shorter prefix, also the entries of longer prefixes: a remote may therefore receive a superset of what is designated for it (never an object that is not reachable); the oracle is designated <= remote <= reachable",
     "remotes emulated by a non-local FileSystem over local disk",
 ]
 MONITORS = "os.walk listings of every remote/cache before and after vs independently computed reachable/designated sets; pushed/failed counts vs objects that newly appeared; workspace walk after checkout"
-REQUIRED_COUNTERS = ["pushes", "fetches", "failure_rounds", "retries", "checkouts_from_fetched_cache", "multi_prefix_cases", "role_fallback_checks",
+REQUIRED_COUNTERS = ["layout/tops-only", "layout/root+deep", "layout/root+tops", "lazy_index_cases", "pushes", "fetches", "failure_rounds", "retries", "checkouts_from_fetched_cache", "multi_prefix_cases", "role_fallback_checks",
                      "objects_designation_checked", "shared_cache_cases", "exhaustive_subset_cases", "remote_index_cases"]
 
 
@@ -56,15 +56,36 @@ def run_shard(ctx):
             ws = os.path.join(d, "ws")
             gen.write_tree(ws, files)
             tops = sorted({k[0] for k in files if len(k) > 1})
-            prefixes = [()]
-            for t in tops:
-                if rng.random() < 0.5:
-                    prefixes.append((t,))
-            if rng.random() < 0.15 and len(prefixes) > 1:
-                prefixes.remove(())  # root files then have no storage: they are not pushed (and not expected)
-            shared_cache = rng.random() < 0.35
-            shared_remote = rng.random() < 0.2
+            if len(tops) < 2 and rng.random() < 0.7:
+                # make sure sibling placements are reachable often
+                for j in range(2 - len(tops)):
+                    nm = gen.name(rng, used=set(tops) | {k[0] for k in files}, odd=0.2)
+                    files[(nm, "f%d" % j)] = rng.choice(pool)
+                    if rng.random() < 0.5:
+                        files[(nm, "sub", "g%d" % j)] = gen.small_content(rng)
+                gen.write_tree(ws, files)
+                tops = sorted({k[0] for k in files if len(k) > 1})
+            layout = rng.choice(["root-only", "root+tops", "root+tops", "tops-only", "tops-only", "root+deep"])
+            prefixes = []
+            if layout in ("root-only", "root+tops", "root+deep") or not tops:
+                prefixes.append(())
+            if layout in ("root+tops", "tops-only"):
+                chosen = [t for t in tops if rng.random() < 0.7] or tops[:1]
+                prefixes += [(t,) for t in chosen]
+            deep_prefixes = []
+            if layout == "root+deep":
+                deeps = sorted({k[:2] for k in files if len(k) > 2})
+                if deeps:
+                    deep_prefixes = [rng.choice(deeps)]
+                    prefixes += deep_prefixes
+            lazy = rng.random() < 0.4
+            shared_cache = rng.random() < 0.5 or bool(deep_prefixes)
+            shared_remote = rng.random() < 0.35 and not deep_prefixes
             use_rindex = rng.random() < 0.4
+            rng.shuffle(prefixes)  # registration order of the storages varies
+            res.count(f"layout/{layout}")
+            if lazy:
+                res.count("lazy_index_cases")
             caches, remotes, rfs = {}, {}, {}
 
             def mk_remote(name):
@@ -93,6 +114,21 @@ def run_shard(ctx):
                     idx.storage_map.add_cache(ObjectStorage(key=p, odb=cache_objs[roles["cache"]]))
                     idx.storage_map.add_remote(ObjectStorage(key=p, odb=remotes[roles["remote"]]))
 
+            def lazify(full, cache_objs):
+                """the index a .dvc file describes: top-level directories as single unloaded entries pointing at their objects"""
+                from dvc_data.index import DataIndex as _DI
+                from dvc_data.index import DataIndexEntry as _DE
+                from dvc_data.hashfile.meta import Meta as _M
+
+                out = _DI()
+                for k, e in full.iteritems():
+                    if len(k) == 1 and e.meta and e.meta.isdir and e.hash_info:
+                        out[k] = _DE(key=k, meta=_M(isdir=True), hash_info=e.hash_info)
+                    elif len(k) == 1 and not (e.meta and e.meta.isdir):
+                        out[k] = _DE(key=k, meta=e.meta, hash_info=e.hash_info)
+                attach(out, cache_objs)
+                return out
+
             idx = md5(build(ws, fs))
             attach(idx, caches)
             covered = {k: v for k, v in files.items() if resolve(pmap, k, "cache")}
@@ -100,6 +136,7 @@ def run_shard(ctx):
             for k in [k for k in list(idx.keys()) if resolve(pmap, k, "cache") is None]:
                 del idx[k]
             save(idx)
+            push_idx = lazify(idx, caches) if lazy else idx
 
             # ---- per-role fallback, checked on the mapping itself (cache-only prefixes deeper down)
             deep = sorted({k[:2] for k in covered if len(k) > 2})
@@ -113,7 +150,7 @@ def run_shard(ctx):
                 if rng.random() < 0.5:
                     extra[dk] = env.local_odb(os.path.join(d, "cache-deep-" + "-".join(str(abs(hash(x)) % 1000) for x in dk)))
                     probe.storage_map.add_cache(ObjectStorage(key=dk, odb=extra[dk]))
-                    fmap[dk] = {"cache": "deep:" + "/".join(dk)}
+                    fmap[dk] = {**fmap.get(dk, {}), "cache": "deep:" + "/".join(dk)}
             for k in list(covered)[:12]:
                 res.count("role_fallback_checks")
                 info = probe.storage_map[k]
@@ -137,6 +174,8 @@ def run_shard(ctx):
             for dk in dirkeys:
                 if resolve(pmap, dk, "cache") is None:
                     continue
+                if lazy and len(dk) > 1:
+                    continue  # sub-directory objects are not named by an index that holds the directory as one entry
                 listing = {"/".join(k[len(dk):]): H("md5", v) for k, v in covered.items() if k[: len(dk)] == dk}
                 oid = canonical_dir_oid(listing)
                 reach.setdefault(oid, set()).add(resolve(pmap, dk, "remote"))
@@ -149,7 +188,7 @@ def run_shard(ctx):
             split_remote = {rn for rn, cs in caches_of_remote.items() if len(cs) > 1}
             res.count("objects_designation_checked", len(reach))
             cfg = {"prefixes": {"/".join(p) or "<root>": r for p, r in pmap.items()}, "files": sorted("/".join(k) for k in files)[:12],
-                   "reachable": len(all_reach), "shared_cache": shared_cache, "shared_remote": shared_remote, "remote_index": use_rindex}
+                   "reachable": len(all_reach), "layout": layout, "lazy_index": lazy, "shared_cache": shared_cache, "shared_remote": shared_remote, "remote_index": use_rindex}
             res.sample(cfg)
 
             def remote_state():
@@ -179,11 +218,11 @@ def run_shard(ctx):
                 res.evaluated()
                 res.count("pushes")
                 if len(prefixes) > 1 or S:
-                    res.nontrivial(sorted(covered.items()), sorted((p, tuple(sorted(r.items()))) for p, r in pmap.items()), sorted(S))
+                    res.nontrivial(lazy, sorted(covered.items()), sorted((p, tuple(sorted(r.items()))) for p, r in pmap.items()), sorted(S))
                 before = remote_state()
                 for n, f in rfs.items():
                     f.fail_put = (lambda p, _o=remotes[n]: (os.path.relpath(p, _o.path).replace(os.sep, "") in S)) if S else None
-                pushed1, failed1 = push(collect([idx], "remote", push=True))
+                pushed1, failed1 = push(collect([lazify(idx, caches) if lazy else idx], "remote", push=True))
                 for f in rfs.values():
                     f.fail_put = None
                 mid = remote_state()
@@ -204,7 +243,7 @@ def run_shard(ctx):
                         res.violation("failures-not-counted", "uploads failed but push reported failed == 0", case=case, detail=info)
                 # clean retry
                 res.count("retries")
-                pushed2, failed2 = push(collect([idx], "remote", push=True))
+                pushed2, failed2 = push(collect([lazify(idx, caches) if lazy else idx], "remote", push=True))
                 after = remote_state()
                 if failed2:
                     res.violation("clean-retry-reports-failures", f"retry without faults reported failed={failed2}", case=case, detail=info)
@@ -236,6 +275,11 @@ def run_shard(ctx):
                             res.violation("remote-object-wrong-bytes", f"{oid} in remote {n} does not match its name", case=case, detail=info)
 
             # ---- fetch into empty caches, then checkout from them
+            if split_remote:
+                res.count("fetch_skipped_checks_split_remote")
+                env.reset_staging()
+                ctx.drop(d)
+                return
             res.count("fetches")
             fresh = {n: env.local_odb(os.path.join(d, "fetched-" + n)) for n in caches}
             idx2 = md5(build(ws, fs))
@@ -247,6 +291,8 @@ def run_shard(ctx):
                     idx2[k].hash_info = e.hash_info
             idx2.storage_map = type(idx2.storage_map)()
             attach(idx2, fresh)
+            if lazy:
+                idx2 = lazify(idx2, fresh)
             fetched, ffailed = fetch(collect([idx2], "remote"))
             cstate = {n: store_snapshot(o.path) for n, o in fresh.items()}
             if ffailed:
